@@ -64,10 +64,18 @@ def make_table(case):
     return rows
 
 
+# process names that make the stat record look like it continues: the parent
+# PID must be taken after the LAST ')'
+ODD_NAMES = [b"a) S 1 (b", b"x) y", b")", b"(", b") R 0 0", b"p) 1 2", b"sh (1) S 7 7",
+             b" ", b"1 S 1", b")))) 9 (((("]
+
+
 def build(rows):
     k = simk.Kernel(ncpus=2)
     for pid, ppid, start, zombie in rows:
-        k.spawn(pid, comm=b"p%d" % pid, ppid=ppid, starttime=start * 7 + 3,
+        # (deterministic in the table: every third process has an odd name)
+        comm = ODD_NAMES[(pid + ppid) % len(ODD_NAMES)] if (pid + start) % 3 == 0 else b"p%d" % pid
+        k.spawn(pid, comm=comm, ppid=ppid, starttime=start * 7 + 3,
                 zombie=zombie, state=b"Z" if zombie else b"S")
     return k
 
